@@ -127,6 +127,7 @@ type winWorld struct {
 	lastWin  int64
 	zeroSeen bool
 	bogus    map[int64]bool // offsets that were sent beyond the right edge with bogus content
+	ackHist  [][2]int64     // sender role: every ACK the peer has sent (offset acknowledged, raw window)
 	maxSent  int64          // highest stream offset ever sent with true content
 }
 
@@ -386,11 +387,28 @@ func (w *winWorld) senderStep(s Step) {
 		}
 		w.peerWin = win
 		w.sawAck = true
+		w.ackHist = append(w.ackHist, [2]int64{ackOff, int64(win)})
 		p.Send(codec.FlagACK, p.SndNxt, p.RcvNxt, win, nil, nil)
 		w.Probes["acks_sent"]++
 		if win == 0 {
 			w.Probes["zero_window_offered"]++
 		}
+	case "staleack":
+		// the network delivers an earlier ACK of the peer once more, behind newer ones (reordering, duplication):
+		// it offers nothing the peer has not offered before, so the largest right edge ever offered stays what it was
+		var old *[2]int64
+		cur := int64(int32(p.RcvNxt - (p.StackISS + 1)))
+		for i := len(w.ackHist) - 1; i >= 0; i-- {
+			if w.ackHist[i][0] < cur {
+				old = &w.ackHist[i]
+				break
+			}
+		}
+		if old == nil {
+			break
+		}
+		p.Send(codec.FlagACK, p.SndNxt, p.StackISS+1+uint32(old[0]), uint16(old[1]), nil, nil)
+		w.Probes["stale_acks_delivered_again"]++
 	case "farack":
 		// an acknowledgement of data that was never sent, half the sequence space (give or take one) ahead:
 		// it acknowledges nothing; whatever is queued behind a closed window is still owed to the peer
@@ -453,7 +471,9 @@ func (w *winWorld) senderStep(s Step) {
 
 func (w *winWorld) senderNext() Step {
 	r := w.Rng
-	switch r.Pick(5, 10, 1, 3, 1, 1) {
+	switch r.Pick(5, 10, 1, 3, 1, 1, 1) {
+	case 6:
+		return Step{Op: "staleack"}
 	case 5:
 		return Step{Op: "farack", A: r.Intn(4)}
 	case 4:
